@@ -172,9 +172,18 @@ let run_bytes line =
       | "esc_html" -> esc esc_html s | "esc_html_br" -> esc esc_html_br s | "esc_latex" -> esc esc_latex s
       | "esc_odf" -> esc esc_odf s | "esc_odf_br" -> esc esc_odf_br s | "esc_opml" -> esc esc_opml s
       | "esc_itmz" -> esc esc_itmz s
+      | "accept" -> critic_accept s
+      | "reject" -> critic_reject s
       | "utf8" -> if valid_utf8 s then [n_of_int 49] else [n_of_int 48]
       | "xmltext" -> if xml_safe false s then [n_of_int 49] else [n_of_int 48]
       | "xmlattr" -> if xml_safe true s then [n_of_int 49] else [n_of_int 48]
+      | _ -> failwith ("unknown byte function " ^ name) in
+    hex_of_bytes r
+  | [name; h; a; b] ->
+    let s = bytes_of_hex h in
+    let r = match name with
+      | "accept_range" -> critic_accept_range s (nat_of_int (int_of_string a)) (nat_of_int (int_of_string b))
+      | "reject_range" -> critic_reject_range s (nat_of_int (int_of_string a)) (nat_of_int (int_of_string b))
       | _ -> failwith ("unknown byte function " ^ name) in
     hex_of_bytes r
   | _ -> "?"
